@@ -3,7 +3,7 @@
        (hevc/sei.go fillHEVCPicTimingParams: FrameFieldInfoPresent from the VUI, the rest from its HRD);
      decoder configuration record -> its SPS / PPS NAL units -> slice segment header
        (DecConfRec.GetNalusForType: the FIRST array of the type).
-   OutOfFuel = a PPS selecting an extension C15HevcModel does not cover (outside the model). *)
+   Every PPS is inside the model (C16HevcParseModel.v has skeletons of the multilayer / 3D extension parsers). *)
 From V.lib Require Import Base.
 From V.c13 Require Import C13Model.
 From V.c15 Require Import C15Model C15HevcModel.
@@ -40,17 +40,14 @@ Definition hevc_rec_nalus (r : C16ConfRecModel.hevc_rec) (t : N) : list (list N)
 Definition parse_hsps_list (l : list (list N)) : list hsps :=
   flat_map (fun u => match c16_hparse_sps u with Ok s => [s] | _ => [] end) l.
 
-(* None: some PPS is outside the model *)
+(* always Some (kept as an option for the driver: None used to mean "some PPS is outside the model") *)
 Fixpoint parse_hpps_list (spss : list hsps) (l : list (list N)) : option (list hpps) :=
   match l with
   | [] => Some []
   | u :: t =>
-      match c16_hparse_pps (hsps_has spss) u with
-      | OutOfFuel => None
-      | r => match parse_hpps_list spss t with
-             | None => None
-             | Some ps => Some ((match r with Ok p => [p] | _ => [] end) ++ ps)
-             end
+      match parse_hpps_list spss t with
+      | None => None
+      | Some ps => Some ((match c16_hparse_pps (hsps_has spss) u with Ok p => [p] | _ => [] end) ++ ps)
       end
   end.
 
@@ -59,7 +56,7 @@ Definition hevc_confrec_and_slice (recb rest : list N) : res hslice :=
   | Ok (r, _) =>
       let spss := parse_hsps_list (hevc_rec_nalus r 33) in
       match parse_hpps_list spss (hevc_rec_nalus r 34) with
-      | None => OutOfFuel
+      | None => Err
       | Some ppss => c16_hparse_slice (hsps_lookup spss) (hpps_lookup ppss) rest
       end
   | Err => Err
